@@ -2,7 +2,7 @@ SPECIFICATION Spec
 CONSTANTS
   MaxLen = 4
   Pairs = TRUE
-  ValSet = {0, 1, 3}
+  ValSet <- SignedSet
   ValSet2 = {0, 1}
   Elem <- ElemDef
   Elem2 <- Elem2Def
